@@ -52,6 +52,17 @@ def base_docs(tier):
                     ['meta', {'a': 'x'}, 'utf-8'], ['file', None],
                     ['meta', {'b': [True, None, 2.5]}, None]]),
     ]
+    rich.append(
+        ('utf-8', [['change', None], ['file', None],
+                   ['meta', {'p': 'q'}, None],
+                   ['diff', b'--- a\r\n+++ b\r\nbare\nlf inside\r\n', None,
+                    None, 'dos'],
+                   ['file', None], ['meta', {'p': 'r'}, None],
+                   ['diff', b'x\r\ny\r\n', 'text', None, None],
+                   ['change', None],
+                   ['preamble', 'dos\r\nwith\nbare lf\r\n', None, 0, 'dos',
+                    None],
+                   ['file', None], ['meta', {'p': 's'}, None]]))
     for root, calls in rich:
         docs.append((root, calls, True))
     return docs
